@@ -321,7 +321,7 @@ def sameDecode (S : Schema) (m : Nat) (bytes : Bytes) (d : Dec) (inVal : List Va
       else pure (some s!"{what}: Lean decode ≠ Go decode at {(diffMsg S m "" (canonMsg lv) (canonMsg gv)).getD "?"}")
 
 def judgeEncode (S : Schema) (inp : Json) : Except String Verdict := do
-  if getStrD inp "stream" == "raw" || getStrD inp "stream" == "glue" then
+  if getStrD inp "stream" == "raw" || getStrD inp "stream" == "glue" || getStrD inp "stream" == "concat" then
     return { model := Json.mkObj [("variants", Json.arr #[])] }
   let name ← getStr inp "msg"
   let some m := findMsg S name | throw s!"unknown message {name}"
@@ -558,6 +558,60 @@ def judgeGlue (S : Schema) (inp obs : Json) : Except String Verdict := do
                    s!"size-class:{if sz = 0 then "0" else if sz < 128 then "<128" else if sz < 16384 then "<16K" else ">=16K"}"],
          nontrivial := sz > 0, model := Json.mkObj [("size", sz)] }
 
+/-- stream `concat`: two values `a`, `b`; both Go decoders on the concatenation of their
+    encodings. spec (on the observation): both decoders succeed and return the same value,
+    which is `proto.Merge(a, b)`, also on the concatenated `MarshalVT` bytes. agree: the
+    Lean `merge a b` (what theorem `C12_concat` says the reference decoder returns, and what
+    it is re-checked to return here) is that value; the concatenated protobuf-go bytes are
+    the concatenated Lean encodings. -/
+def judgeConcat (S : Schema) (inp obs : Json) : Except String Verdict := do
+  let name ← getStr inp "msg"
+  let note := getStrD inp "note"
+  let some m := findMsg S name | throw s!"unknown message {name}"
+  let a ← parseMsg S m (← getObj inp "val")
+  let b ← parseMsg S m (← getObj inp "val2")
+  let err := getStrD obs "err"
+  let cat ← unhex (getStrD obs "cat_pb")
+  let pb ← getDec obs "pb"
+  let vt ← getDec obs "vt"
+  let vtvt ← getDec obs "vtvt"
+  let mergedJ := (obs.getObjVal? "merged").toOption.getD Json.null
+  let mut fails : List String := []
+  if err != "" then fails := fails ++ [s!"failed: {err}"]
+  else
+    for (d, w) in [(pb, "proto.Unmarshal(pb(a)++pb(b))"), (vt, "UnmarshalVT(pb(a)++pb(b))"),
+                   (vtvt, "UnmarshalVT(MarshalVT(a)++MarshalVT(b))")] do
+      if !d.ok then fails := fails ++ [s!"{w} fails ({d.err})"]
+      else if d.unknown != 0 then fails := fails ++ [s!"{w} leaves {d.unknown} unknown bytes"]
+      else if d.dump != mergedJ || !d.equal then
+        let loc := match parseMsg S m d.dump, parseMsg S m mergedJ with
+          | .ok x, .ok y => (diffMsg S m "" (canonMsg y) (canonMsg x)).getD "proto.Equal"
+          | _, _ => "?"
+        fails := fails ++ [s!"{w} ≠ proto.Merge(a, b) at {loc}"]
+  let mut dis : List String := []
+  let wt := WellTyped S m a && WellTyped S m b
+  if err == "" && wt then
+    let lm := merge S m a b
+    if encode S m (canonMsg a) ++ encode S m (canonMsg b) != cat then
+      dis := dis ++ ["the concatenated protobuf-go bytes are not the concatenated Lean encodings"]
+    match decode S m cat with
+    | some lv => if !msgBeq (canonMsg lv) (canonMsg lm) then dis := dis ++ ["Lean decode of the concatenation ≠ Lean merge (contradicts C12_concat)"]
+    | none => dis := dis ++ ["Lean decode rejects the concatenation"]
+    match parseMsg S m mergedJ with
+    | .ok gm =>
+      if !msgBeq (canonMsg lm) (canonMsg gm) then
+        dis := dis ++ [s!"Lean merge ≠ proto.Merge at {(diffMsg S m "" (canonMsg lm) (canonMsg gm)).getD "?"}"]
+    | .error e => dis := dis ++ [s!"proto.Merge result undumpable ({e})"]
+  pure { agree := dis.isEmpty, spec := fails.isEmpty,
+         why := match fails, dis with
+           | w :: _, _ => s!"{name} [{note}]: {w}"
+           | [], w :: _ => s!"{name} [{note}]: {w}"
+           | [], [] => "",
+         sig := if fails.isEmpty then "" else "C12:concat",
+         cover := ["stream:concat", s!"msg:{name}", "domain:in"],
+         nontrivial := wt && !(encode S m a).isEmpty && !(encode S m b).isEmpty,
+         model := Json.null }
+
 def judge (j : Json) : Except String Verdict := do
   let inp ← getObj j "in"
   if getStrD j "op" == "encode" then judgeEncode apiSchema inp
@@ -565,6 +619,7 @@ def judge (j : Json) : Except String Verdict := do
     let obs ← getObj j "obs"
     if getStrD inp "stream" == "raw" then judgeRaw apiSchema inp obs
     else if getStrD inp "stream" == "glue" then judgeGlue apiSchema inp obs
+    else if getStrD inp "stream" == "concat" then judgeConcat apiSchema inp obs
     else judgeCase apiSchema inp obs
 
 def main : IO UInt32 := runLines judge
